@@ -235,6 +235,20 @@ CLAIMED = {
          "independent value-space statement; histories depending on repair are judged by the oracle only); the XML transcoder mediator "
          "is not modelled. Open known finding: container-valued fields raise TypeError.",
     technique="Coq proof on mediator bookkeeping + property-map models + record-level and history-level correspondence + re-parse oracle", ref='5 C17'),
+ 'C20': dict(
+    text="Theorems over the rationals on the formulas of the miner (regenerated from the source ast and compared by reflexivity): every "
+         "noisy-or combination, the node taint formula exactly as written, a reasoning step and a related-concept confidence stay in "
+         "[0,1] for inputs in [0,1], and a reasoning step never exceeds the confidence it started from. On a model of the seed loop "
+         "(find_optimal_seed, _set_seed, _update_seed_taints) with the reasoning from one seed as an arbitrary parameter: mining "
+         "without a seed terminates within one round per untainted node, afterwards no node is untainted and, from a fresh graph, "
+         "every node holds a confidence for some seed (coverage). Tied to the code by T2: the seed order and final taints of the real "
+         "graph on ~200 generated documents per run vs the loop model fed with the confidences the implementation assigned. Oracle: "
+         "random ontologies / events / min_confidence / max_depth under a watchdog: every confidence range, seeds with confidence 1, "
+         "minimum confidence, coverage, universals equal to the pairs in the events, JSON round trip.",
+    note=TB + "confidences are rationals in the model and floats in the code; the Dijkstra-style reasoning from one seed (and its own "
+         "termination) is not modelled: covered by the oracle and watchdog only. Open known finding: the JSON form omits the "
+         "concept naming priority, so titles can change in a round trip (pinned by tests).",
+    technique="Coq proof on confidence formulas (regenerated) and the seed loop model + loop correspondence + mining oracle with watchdog", ref='5 C20'),
  'C18': dict(
     text="Theorems over the collection-equivalence model: the verdict is true exactly when ontologies are equal and both "
          "collections have the same hashes with equal merged events (spec), symmetry, reflexivity, equivalence with the "
